@@ -122,6 +122,13 @@ theorem solve_true_residual_at_returned_zeros {Z : Type} (zeros : W → Z) (c : 
 
 /-! ### iteration counter -/
 
+/-- **invariant of the core loop**: `solveNonLinearSystem2`, entered with `iter < iterMax`, only increases the
+counter and leaves with `iter ≤ iterMax` (this is also what makes the recursion of the model well founded:
+measure `iterMax - iter`, no fuel). -/
+theorem core_iter_bounds (c : Child W α) (iterMax iter : Nat) (h : iter < iterMax) (dd : Bool) (w : W) :
+    iter ≤ (core c iterMax iter h dd w).iter ∧ (core c iterMax iter h dd w).iter ≤ iterMax :=
+  ⟨core_iter_ge c iterMax iter h dd w, core_iter_le c iterMax iter h dd w⟩
+
 theorem outer_iter_le (c : Child W α) (iterMax iter : Nat) (h : iter ≤ iterMax) (dd : Bool) (w : W) :
     (outer c iterMax iter h dd w).iter ≤ iterMax := by
   refine outer_rec c iterMax (motive := fun _ _ _ r => r.iter ≤ iterMax) ?_ ?_ ?_ ?_ iter h dd w
@@ -200,18 +207,6 @@ theorem solve_trace_iter_lt (c : Child W α) (iterMax : Nat) (w : W) :
   rcases hev with rfl | hev
   · simp [Event.iter?] at hi
   · exact outer_trace_iter_lt c iterMax 0 (Nat.zero_le _) false _ ev hev i hi
-
-/-- number of `computeResidual` calls in a trace -/
-def residualCount : List (Event W α) → Nat
-  | [] => 0
-  | .residual _ _ _ _ :: l => residualCount l + 1
-  | _ :: l => residualCount l
-
-theorem residualCount_append (l₁ l₂ : List (Event W α)) :
-    residualCount (l₁ ++ l₂) = residualCount l₁ + residualCount l₂ := by
-  induction l₁ with
-  | nil => simp [residualCount]
-  | cons a l ih => cases a <;> simp [residualCount, ih] <;> omega
 
 theorem core_residualCount (c : Child W α) (iterMax iter : Nat) (h : iter < iterMax) (dd : Bool) (w : W) :
     residualCount (core c iterMax iter h dd w).trace + iter ≤ (core c iterMax iter h dd w).iter + 1 ∧
